@@ -452,6 +452,16 @@ Definition kids_len (a : assoc) (N : nat) (ks : list kid) : Prop :=
 Definition valued (a : assoc) (ks : list kid) : Prop :=
   forall k, In k ks -> kassoc k = a -> kvals k <> None.
 
+(* no text child of association a / zero-length text arrays cannot be written *)
+Definition text_free (a : assoc) (ks : list kid) : Prop := forall k, In k ks -> kassoc k = a -> kkind k <> KText.
+
+Lemma text_empty_false k (v : vals) : k <> KText \/ 0 < length v -> text_empty k v = false.
+Proof.
+  unfold text_empty. intros [H|H].
+  - destruct k; try reflexivity. congruence.
+  - destruct v; [simpl in H; lia|]. apply andb_false_r.
+Qed.
+
 Lemma assoc_eqb_eq a b : assoc_eqb a b = true <-> a = b.
 Proof. destruct a, b; simpl; split; intros H; try reflexivity; try discriminate. Qed.
 
@@ -469,6 +479,7 @@ Proof.
       * assert (Lv : length v = N) by (apply (HL k v); [left; reflexivity|exact Ea'|exact Ev]).
         unfold np_delete in H. rewrite Lv, HN in H.
         rewrite format_length_eq in H by (rewrite select_length; rewrite ?keep_mask_length; auto).
+        destruct (text_empty (kkind k) (select (keep_mask N I') v)); [discriminate|].
         destruct (rcv fl I a (count (keep_mask N I')) r) as [r' e] eqn:R. injection H as E1 E2; subst ks' e.
         constructor; [|apply IH; auto].
         unfold rcv_kid. simpl. rewrite Ev. repeat split; auto.
@@ -486,23 +497,36 @@ Qed.
 Lemma rcv_total fl I I' a N : forall ks,
   kids_len a N ks -> norm_all N I = Some I' ->
   (f_skip_valueless fl = true \/ valued a ks) ->
+  (text_free a ks \/ 0 < count (keep_mask N I')) ->
   exists ks', rcv fl I a (count (keep_mask N I')) ks = (ks', None).
 Proof.
-  induction ks as [|k r IH]; intros HL HN HS; simpl.
+  induction ks as [|k r IH]; intros HL HN HS HT; simpl.
   - eexists; reflexivity.
   - assert (HLr : kids_len a N r) by (intros k0 v0 Hin; apply HL; right; exact Hin).
     assert (HSr : f_skip_valueless fl = true \/ valued a r).
     { destruct HS as [HS|HS]; [left; exact HS|right]. intros k0 Hin. apply HS. right. exact Hin. }
-    destruct (IH HLr HN HSr) as [r' Hr]. rewrite Hr.
+    assert (HTr : text_free a r \/ 0 < count (keep_mask N I')).
+    { destruct HT as [HT|HT]; [left|right; exact HT]. intros k0 Hin. apply HT. right. exact Hin. }
+    destruct (IH HLr HN HSr HTr) as [r' Hr]. rewrite Hr.
     destruct (assoc_eqb (kassoc k) a) eqn:Ea; [|eexists; reflexivity].
     apply assoc_eqb_eq in Ea.
     destruct (kvals k) as [v|] eqn:Ev.
     + assert (Lv : length v = N) by (apply (HL k v); [left; reflexivity|exact Ea|exact Ev]).
       unfold np_delete. rewrite Lv, HN.
       rewrite format_length_eq by (rewrite select_length; rewrite ?keep_mask_length; auto).
-      eexists; reflexivity.
+      rewrite text_empty_false; [eexists; reflexivity|].
+      destruct HT as [HT|HT]; [left; apply (HT k); [left; reflexivity|exact Ea]|right].
+      rewrite select_length by (rewrite keep_mask_length; auto). exact HT.
     + destruct HS as [HS|HS]; [rewrite HS; eexists; reflexivity|].
       exfalso. apply (HS k); [left; reflexivity|exact Ea|exact Ev].
+Qed.
+
+Lemma rcv_kid_keeps_text_free m a b ks ks' : Forall2 (rcv_kid m a) ks ks' -> text_free b ks -> text_free b ks'.
+Proof.
+  intros H HT k' Hin Hb.
+  apply In_nth_error in Hin as [p Hp].
+  destruct (Forall2_nth_r _ _ _ _ _ H Hp) as [k [Hk (E1 & E2 & E3 & E4)]].
+  rewrite E3. apply (HT k); [eapply nth_error_In; eauto|congruence].
 Qed.
 
 (* two passes (vertex children, then cell children) make a selection of the children *)
@@ -615,17 +639,22 @@ Proof.
   exists I'. repeat split; auto. eapply rcv_done; eauto.
 Qed.
 
+Definition text_safe_rc (o : obj) (I : list Z) : Prop :=
+  text_free ACell (kids o) \/
+  forall I', norm_all (length (cells o)) I = Some I' -> 0 < count (keep_mask (length (cells o)) I').
+
 Lemma remove_cells_failed fl o I e o' :
   kids_len ACell (length (cells o)) (kids o) ->
-  (f_skip_valueless fl = true \/ valued ACell (kids o)) ->
+  (f_skip_valueless fl = true \/ valued ACell (kids o)) -> text_safe_rc o I ->
   remove_cells fl o I = Failed e o' -> o' = o.
 Proof.
-  intros HL HS. unfold remove_cells.
+  intros HL HS HT. unfold remove_cells.
   destruct (check_max (length (cells o)) I); [|intros H; inversion H; reflexivity].
   destruct (np_delete (cells o) I) as [cs'|] eqn:D; [|intros H; inversion H; reflexivity].
   apply np_delete_ok in D as [I' [HN ->]]. simpl.
   rewrite select_length by (rewrite keep_mask_length; reflexivity).
   destruct (rcv_total fl I I' ACell (length (cells o)) (kids o) HL HN HS) as [ks' Hr].
+  { destruct HT as [HT|HT]; [left; exact HT|right; apply HT; exact HN]. }
   rewrite Hr. unfold finish. simpl. discriminate.
 Qed.
 
@@ -662,14 +691,16 @@ Qed.
 
 Lemma points_rv_failed fl o I e o' : wf o ->
   (f_skip_valueless fl = true \/ valued AVertex (kids o)) ->
+  (text_free AVertex (kids o) \/ forall I', norm_all (length (verts o)) I = Some I' -> 0 < count (vmask o I')) ->
   points_remove_vertices fl o I = Failed e o' -> o' = o.
 Proof.
-  intros W HS. unfold points_remove_vertices.
+  intros W HS HT. unfold points_remove_vertices.
   destruct (check_max (length (verts o)) I); [|intros H; inversion H; reflexivity].
   destruct (np_delete (verts o) I) as [vs'|] eqn:D; [|intros H; inversion H; reflexivity].
   apply np_delete_ok in D as [I' [HN ->]]. simpl.
   rewrite select_length by (rewrite keep_mask_length; reflexivity).
   destruct (rcv_total fl I I' AVertex (length (verts o)) (kids o) (wf_kids_len_v o W) HN HS) as [ks' Hr].
+  { destruct HT as [HT|HT]; [left; exact HT|right; apply HT; exact HN]. }
   rewrite Hr. unfold finish. simpl. discriminate.
 Qed.
 
@@ -751,19 +782,32 @@ Qed.
 Definition valueless_safe (fl : flags) (o : obj) : Prop :=
   f_skip_valueless fl = true \/ (valued AVertex (kids o) /\ valued ACell (kids o)).
 
+(* vertex-/cell-associated text data survive a removal only if at least one vertex / cell survives *)
+Definition keeps_some (o : obj) (I : list Z) : Prop :=
+  forall I', norm_all (length (verts o)) I = Some I' ->
+    0 < count (vmask o I') /\ 0 < count (cell_mask (vmask o I') (cells o)).
+Definition text_safe_rv (o : obj) (I : list Z) : Prop :=
+  (text_free AVertex (kids o) /\ text_free ACell (kids o)) \/ (ok o = OPoints /\ text_free AVertex (kids o)) \/ keeps_some o I.
+
 Lemma cell_rv_failed fl o I e o' : wf o -> valueless_safe fl o ->
   (f_guard_cells fl = true \/ touches o I) ->
+  ((text_free AVertex (kids o) /\ text_free ACell (kids o)) \/ keeps_some o I) ->
   cell_remove_vertices fl o I = Failed e o' -> o' = o.
 Proof.
-  intros W HS HG. unfold cell_remove_vertices. cbv zeta.
+  intros W HS HG HT. unfold cell_remove_vertices. cbv zeta.
   destruct (check_max (length (verts o)) I); [|intros H; injection H as _ <-; reflexivity].
   destruct (norm_all (length (verts o)) I) as [I'|] eqn:HN; [|intros H; injection H as _ <-; reflexivity].
+  assert (HT1 : text_free AVertex (kids o) \/ 0 < count (keep_mask (length (verts o)) I')).
+  { destruct HT as [[HT _]|HT]; [left; exact HT|right; apply (HT I' HN)]. }
+  assert (HT2 : text_free ACell (kids o) \/ 0 < count (cell_mask (keep_mask (length (verts o)) I') (cells o))).
+  { destruct HT as [[_ HT]|HT]; [left; exact HT|right; apply (HT I' HN)]. }
   remember (keep_mask (length (verts o)) I') as m eqn:Em.
   assert (Lm : length m = length (verts o)) by (subst m; apply keep_mask_length).
   simpl. rewrite select_length by exact Lm.
   assert (HS1 : f_skip_valueless fl = true \/ valued AVertex (kids o)) by (destruct HS as [HS|[HS _]]; auto).
-  destruct (rcv_total fl I I' AVertex (length (verts o)) (kids o) (wf_kids_len_v o W) HN HS1) as [ks1 R1].
-  rewrite <- Em in R1. rewrite R1. unfold finish; simpl.
+  assert (R1 : exists ks1, rcv fl I AVertex (count m) (kids o) = (ks1, None)).
+  { subst m. apply rcv_total; auto. apply wf_kids_len_v; exact W. }
+  destruct R1 as [ks1 R1]. rewrite R1. unfold finish; simpl.
   assert (HK1 : Forall2 (rcv_kid m AVertex) (kids o) ks1).
   { subst m. eapply rcv_done; eauto. apply wf_kids_len_v; exact W. }
   rewrite cells_kept_wf by (rewrite Lm; apply W).
@@ -773,8 +817,10 @@ Proof.
   { eapply rcv_kid_keeps_other; [|exact HK1|apply wf_kids_len_c; exact W]. discriminate. }
   assert (HS2 : f_skip_valueless fl = true \/ valued ACell ks1).
   { destruct HS as [HS|[_ HS]]; [left; exact HS|right]. eapply rcv_kid_keeps_valued; eauto. }
+  assert (HT2' : text_free ACell ks1 \/ 0 < count cm).
+  { destruct HT2 as [H|H]; [left; eapply rcv_kid_keeps_text_free; eauto|right; exact H]. }
   destruct (f_guard_cells fl && match where_false cm with [] => true | _ :: _ => false end) eqn:G; [discriminate|].
-  assert (HT : where_false cm <> []).
+  assert (HTw : where_false cm <> []).
   { destruct HG as [HG|HG].
     - rewrite HG in G. simpl in G. destruct (where_false cm); [discriminate|]. discriminate.
     - subst cm m. apply (touches_where_false o I I'); assumption. }
@@ -787,6 +833,7 @@ Proof.
   rewrite select_length in RC by exact Lcm.
   destruct (rcv_total fl (map Z.of_nat (where_false cm)) (where_false cm) ACell (length (cells o)) ks1 HL1) as [ks2 R2]; auto.
   { apply norm_all_of_nat. rewrite <- Lcm. apply where_false_lt. }
+  { rewrite <- Lcm, keep_mask_where_false. exact HT2'. }
   rewrite <- Lcm, keep_mask_where_false in R2. rewrite R2 in RC. unfold finish in RC. simpl in RC. discriminate.
 Qed.
 
@@ -802,13 +849,19 @@ Proof.
 Qed.
 
 Lemma remove_vertices_failed fl o I e o' : wf o -> valueless_safe fl o ->
-  (f_guard_cells fl = true \/ ok o = OPoints \/ touches o I) ->
+  (f_guard_cells fl = true \/ ok o = OPoints \/ touches o I) -> text_safe_rv o I ->
   remove_vertices fl o I = Failed e o' -> o' = o.
 Proof.
-  intros W HS HG. unfold remove_vertices. destruct (ok o) eqn:Ek.
-  - apply points_rv_failed; [exact W|]. destruct HS as [HS|[HS _]]; auto.
-  - apply cell_rv_failed; auto. destruct HG as [HG|[HG|HG]]; auto. discriminate.
-  - apply cell_rv_failed; auto. destruct HG as [HG|[HG|HG]]; auto. discriminate.
+  intros W HS HG HT. unfold remove_vertices. destruct (ok o) eqn:Ek.
+  - apply points_rv_failed; [exact W| |].
+    + destruct HS as [HS|[HS _]]; auto.
+    + destruct HT as [[HT _]|[[_ HT]|HT]]; [left; exact HT|left; exact HT|right; intros I' HN; apply (HT I' HN)].
+  - apply cell_rv_failed; auto.
+    + destruct HG as [HG|[HG|HG]]; auto. discriminate.
+    + destruct HT as [HT|[[HT _]|HT]]; [left; exact HT|congruence|right; exact HT].
+  - apply cell_rv_failed; auto.
+    + destruct HG as [HG|[HG|HG]]; auto. discriminate.
+    + destruct HT as [HT|[[HT _]|HT]]; [left; exact HT|congruence|right; exact HT].
 Qed.
 
 (* ================================================================== masked copy *)
@@ -821,7 +874,7 @@ Proof.
   pose proof (count_le_length m). destruct b; [|lia]. f_equal. apply IH; lia.
 Qed.
 
-Lemma data_copy_some n m k k' v : kvals k = Some v -> n = count m -> data_copy n (Some m) k = Ok k' ->
+Lemma data_copy_some fl n m k k' v : kvals k = Some v -> n = count m -> data_copy fl n (Some m) k = Ok k' ->
   length m = length v /\ kid_id k' = kid_id k /\ kassoc k' = kassoc k /\ kkind k' = kkind k /\ kvals k' = Some (select m v).
 Proof.
   intros Hv Hn. unfold data_copy. rewrite Hv.
@@ -831,12 +884,13 @@ Proof.
   { destruct (n <? length v) eqn:E2; [reflexivity|]. apply Nat.ltb_ge in E2.
     pose proof (count_le_length m).
     rewrite fill_masked_all_true by lia. symmetry. apply select_all_true; lia. }
-  destruct (negb (n <? length v) && dkind_eqb (kkind k) KText); [discriminate|].
+  destruct (negb (n <? length v) && dkind_eqb (kkind k) KText && negb (f_copy_text fl)); [discriminate|].
   rewrite Hsel. rewrite format_length_eq by (rewrite select_length; lia).
+  destruct (text_empty (kkind k) (select m v)); [discriminate|].
   intros H; injection H as <-. simpl. auto.
 Qed.
 
-Lemma data_copy_plain n om k k' : (kvals k = None \/ om = None) -> data_copy n om k = Ok k' ->
+Lemma data_copy_plain fl n om k k' : (kvals k = None \/ om = None) -> data_copy fl n om k = Ok k' ->
   kid_id k' = kid_id k /\ kassoc k' = kassoc k /\ kkind k' = kkind k /\ kvals k' = kvals k.
 Proof.
   intros H. unfold data_copy. destruct H as [H|H]; rewrite H.
@@ -847,11 +901,11 @@ Qed.
 Lemma select_repeat_true {A} (v : list A) n : length v = n -> select (repeat true n) v = v.
 Proof. intros H. apply select_all_true; rewrite ?count_repeat_true, repeat_length; auto. Qed.
 
-Lemma copy_kids_sel Nv Nc nv nc ovm ocm : forall ks ks',
+Lemma copy_kids_sel fl Nv Nc nv nc ovm ocm : forall ks ks',
   kids_len AVertex Nv ks -> kids_len ACell Nc ks ->
   nv = count (mask_or_all ovm Nv) ->
   (Forall not_cell ks \/ nc = count (mask_or_all ocm Nc)) ->
-  copy_kids nv nc ovm ocm ks = Ok ks' ->
+  copy_kids fl nv nc ovm ocm ks = Ok ks' ->
   Forall2 (sel_kid (mask_or_all ovm Nv) (mask_or_all ocm Nc)) ks ks'.
 Proof.
   induction ks as [|k r IH]; intros ks' HLv HLc Hnv Hnc H; simpl in H.
@@ -860,29 +914,29 @@ Proof.
     assert (HLc' : kids_len ACell Nc r) by (intros k0 v0 Hin; apply HLc; right; exact Hin).
     assert (Hnc' : Forall not_cell r \/ nc = count (mask_or_all ocm Nc)).
     { destruct Hnc as [Hnc|Hnc]; [left; inversion Hnc; assumption|right; exact Hnc]. }
-    destruct (data_copy _ _ k) as [k'|] eqn:D; [|discriminate].
-    destruct (copy_kids nv nc ovm ocm r) as [r'|] eqn:C; [|discriminate].
+    destruct (data_copy fl _ _ k) as [k'|] eqn:D; [|discriminate].
+    destruct (copy_kids fl nv nc ovm ocm r) as [r'|] eqn:C; [|discriminate].
     injection H as <-. constructor; [|apply IH; auto].
     unfold sel_kid.
     destruct (kassoc k) eqn:Ea.
     + destruct (kvals k) as [v|] eqn:Ev.
       * destruct ovm as [m|].
-        -- destruct (data_copy_some _ m k k' v Ev Hnv D) as (L & A1 & A2 & A3 & A4). rewrite Ea in A2. simpl. auto.
-        -- destruct (data_copy_plain _ None k k' (or_intror eq_refl) D) as (A1 & A2 & A3 & A4).
+        -- destruct (data_copy_some fl _ m k k' v Ev Hnv D) as (L & A1 & A2 & A3 & A4). rewrite Ea in A2. simpl. auto.
+        -- destruct (data_copy_plain fl _ None k k' (or_intror eq_refl) D) as (A1 & A2 & A3 & A4).
            rewrite Ea in A2. repeat split; auto. rewrite A4, Ev. simpl. rewrite select_repeat_true; [reflexivity|].
            apply (HLv k v); [left; reflexivity|exact Ea|exact Ev].
-      * destruct (data_copy_plain _ ovm k k' (or_introl Ev) D) as (A1 & A2 & A3 & A4).
+      * destruct (data_copy_plain fl _ ovm k k' (or_introl Ev) D) as (A1 & A2 & A3 & A4).
         rewrite Ea in A2. repeat split; auto. rewrite A4, Ev. reflexivity.
     + destruct Hnc as [Hnc|Hnc]; [inversion Hnc; subst; unfold not_cell in *; congruence|].
       destruct (kvals k) as [v|] eqn:Ev.
       * destruct ocm as [m|].
-        -- destruct (data_copy_some _ m k k' v Ev Hnc D) as (L & A1 & A2 & A3 & A4). rewrite Ea in A2. simpl. auto.
-        -- destruct (data_copy_plain _ None k k' (or_intror eq_refl) D) as (A1 & A2 & A3 & A4).
+        -- destruct (data_copy_some fl _ m k k' v Ev Hnc D) as (L & A1 & A2 & A3 & A4). rewrite Ea in A2. simpl. auto.
+        -- destruct (data_copy_plain fl _ None k k' (or_intror eq_refl) D) as (A1 & A2 & A3 & A4).
            rewrite Ea in A2. repeat split; auto. rewrite A4, Ev. simpl. rewrite select_repeat_true; [reflexivity|].
            apply (HLc k v); [left; reflexivity|exact Ea|exact Ev].
-      * destruct (data_copy_plain _ ocm k k' (or_introl Ev) D) as (A1 & A2 & A3 & A4).
+      * destruct (data_copy_plain fl _ ocm k k' (or_introl Ev) D) as (A1 & A2 & A3 & A4).
         rewrite Ea in A2. repeat split; auto. rewrite A4, Ev. reflexivity.
-    + destruct (data_copy_plain _ None k k' (or_intror eq_refl) D) as (A1 & A2 & A3 & A4).
+    + destruct (data_copy_plain fl _ None k k' (or_intror eq_refl) D) as (A1 & A2 & A3 & A4).
       rewrite Ea in A2. repeat split; auto.
 Qed.
 
@@ -924,8 +978,8 @@ Qed.
 Definition copy_cmask (o : obj) (vm : list bool) (ocm : option (list bool)) : list bool :=
   match ocm with Some c => c | None => cell_mask vm (cells o) end.
 
-Lemma masked_copy_done o ovm ocm o' : wf o -> (ovm = None \/ ocm = None) -> (ok o = OPoints -> ocm = None) ->
-  masked_copy o ovm ocm = Done o' ->
+Lemma masked_copy_done fl o ovm ocm o' : wf o -> (ovm = None \/ ocm = None) -> (ok o = OPoints -> ocm = None) ->
+  masked_copy fl o ovm ocm = Done o' ->
   selection (mask_or_all ovm (length (verts o))) (copy_cmask o (mask_or_all ovm (length (verts o))) ocm) o o'.
 Proof.
   intros W Hex Hpt. pose proof W as (Wc & Wk & Wp).
@@ -935,19 +989,19 @@ Proof.
     rewrite (Hpt eq_refl). destruct (Wp eq_refl) as [Wp1 Wp2]. unfold copy_cmask. rewrite Wp1. simpl cell_mask.
     destruct ovm as [m|]; simpl mask_or_all.
     + destruct (Nat.eqb (length m) (length (verts o))) eqn:E; simpl; [|discriminate]. apply Nat.eqb_eq in E.
-      destruct (copy_kids _ 0 (Some m) (Some m) (kids o)) as [ks|] eqn:C; [|discriminate].
+      destruct (copy_kids fl _ 0 (Some m) (Some m) (kids o)) as [ks|] eqn:C; [|discriminate].
       intros H; injection H as <-. unfold selection. simpl. rewrite Wp1.
       split; [exact E|]. split; [reflexivity|]. split; [intros j c Hj; destruct j; discriminate|].
       split; [simpl; congruence|]. split; [reflexivity|]. split; [rewrite ?select_nil_r; reflexivity|].
       apply (sel_kid_no_cell m m []); [exact Wp2|].
-      apply (copy_kids_sel (length (verts o)) (length (cells o)) _ _ (Some m) (Some m)) in C; auto.
+      apply (copy_kids_sel fl (length (verts o)) (length (cells o)) _ _ (Some m) (Some m)) in C; auto.
       simpl. apply select_length. exact E.
-    + destruct (copy_kids _ 0 None None (kids o)) as [ks|] eqn:C; [|discriminate].
+    + destruct (copy_kids fl _ 0 None None (kids o)) as [ks|] eqn:C; [|discriminate].
       intros H; injection H as <-. unfold selection. simpl. rewrite Wp1.
       split; [apply repeat_length|]. split; [reflexivity|]. split; [intros j c Hj; destruct j; discriminate|].
       split; [simpl; congruence|]. split; [rewrite select_repeat_true; reflexivity|]. split; [reflexivity|].
       apply (sel_kid_no_cell _ (mask_or_all None (length (cells o))) []); [exact Wp2|].
-      apply (copy_kids_sel (length (verts o)) (length (cells o)) _ _ None None) in C; auto.
+      apply (copy_kids_sel fl (length (verts o)) (length (cells o)) _ _ None None) in C; auto.
       simpl. rewrite count_repeat_true. reflexivity.
   - (* Curve *)
     destruct ovm as [m|]; simpl mask_or_all.
@@ -955,32 +1009,32 @@ Proof.
       destruct (Nat.eqb (length m) (length (verts o))) eqn:E; simpl; [|discriminate]. apply Nat.eqb_eq in E.
       rewrite cells_kept_wf by (rewrite E; exact Wc).
       rewrite cell_mask_length, Nat.eqb_refl. simpl.
-      destruct (copy_kids _ _ (Some m) (Some (cell_mask m (cells o))) (kids o)) as [ks|] eqn:C; [|discriminate].
+      destruct (copy_kids fl _ _ (Some m) (Some (cell_mask m (cells o))) (kids o)) as [ks|] eqn:C; [|discriminate].
       intros H; injection H as <-. unfold selection. simpl.
       split; [exact E|]. split; [apply cell_mask_length|]. split; [apply cell_mask_closed|].
       split; [simpl; congruence|]. split; [reflexivity|]. split.
       * rewrite select_map. change (new_id m) with (new_index m).
         apply new_index_rank_sel; [apply cell_mask_closed|apply cell_mask_length].
-      * apply (copy_kids_sel (length (verts o)) (length (cells o)) _ _ (Some m) (Some (cell_mask m (cells o)))) in C; auto.
+      * apply (copy_kids_sel fl (length (verts o)) (length (cells o)) _ _ (Some m) (Some (cell_mask m (cells o)))) in C; auto.
         -- simpl. apply select_length. exact E.
         -- right. simpl. apply select_length. rewrite map_length. apply cell_mask_length.
     + destruct ocm as [c|]; unfold copy_cmask.
       * destruct (Nat.eqb (length c) (length (cells o))) eqn:E; simpl; [|discriminate]. apply Nat.eqb_eq in E.
-        destruct (copy_kids _ _ None (Some c) (kids o)) as [ks|] eqn:C; [|discriminate].
+        destruct (copy_kids fl _ _ None (Some c) (kids o)) as [ks|] eqn:C; [|discriminate].
         intros H; injection H as <-. unfold selection. simpl.
         split; [apply repeat_length|]. split; [exact E|]. split; [apply closed_all_true; exact Wc|].
         split; [simpl; congruence|]. split; [rewrite select_repeat_true; reflexivity|]. split.
         -- rewrite rank_all_true_cells; [reflexivity|]. apply Forall_select. exact Wc.
-        -- apply (copy_kids_sel (length (verts o)) (length (cells o)) _ _ None (Some c)) in C; auto.
+        -- apply (copy_kids_sel fl (length (verts o)) (length (cells o)) _ _ None (Some c)) in C; auto.
            ++ simpl. rewrite count_repeat_true. reflexivity.
            ++ right. simpl. apply select_length. exact E.
-      * destruct (copy_kids _ _ None None (kids o)) as [ks|] eqn:C; [|discriminate].
+      * destruct (copy_kids fl _ _ None None (kids o)) as [ks|] eqn:C; [|discriminate].
         intros H; injection H as <-. unfold selection. simpl.
         rewrite cell_mask_all_true by exact Wc.
         split; [apply repeat_length|]. split; [apply repeat_length|]. split; [apply closed_all_true; exact Wc|].
         split; [simpl; congruence|]. split; [rewrite select_repeat_true; reflexivity|]. split.
         -- rewrite select_repeat_true by reflexivity. rewrite rank_all_true_cells; [reflexivity|exact Wc].
-        -- apply (copy_kids_sel (length (verts o)) (length (cells o)) _ _ None None) in C; auto.
+        -- apply (copy_kids_sel fl (length (verts o)) (length (cells o)) _ _ None None) in C; auto.
            ++ simpl. rewrite count_repeat_true. reflexivity.
            ++ right. simpl. rewrite count_repeat_true. reflexivity.
   - (* Surface: same code path *)
@@ -989,37 +1043,37 @@ Proof.
       destruct (Nat.eqb (length m) (length (verts o))) eqn:E; simpl; [|discriminate]. apply Nat.eqb_eq in E.
       rewrite cells_kept_wf by (rewrite E; exact Wc).
       rewrite cell_mask_length, Nat.eqb_refl. simpl.
-      destruct (copy_kids _ _ (Some m) (Some (cell_mask m (cells o))) (kids o)) as [ks|] eqn:C; [|discriminate].
+      destruct (copy_kids fl _ _ (Some m) (Some (cell_mask m (cells o))) (kids o)) as [ks|] eqn:C; [|discriminate].
       intros H; injection H as <-. unfold selection. simpl.
       split; [exact E|]. split; [apply cell_mask_length|]. split; [apply cell_mask_closed|].
       split; [simpl; congruence|]. split; [reflexivity|]. split.
       * rewrite select_map. change (new_id m) with (new_index m).
         apply new_index_rank_sel; [apply cell_mask_closed|apply cell_mask_length].
-      * apply (copy_kids_sel (length (verts o)) (length (cells o)) _ _ (Some m) (Some (cell_mask m (cells o)))) in C; auto.
+      * apply (copy_kids_sel fl (length (verts o)) (length (cells o)) _ _ (Some m) (Some (cell_mask m (cells o)))) in C; auto.
         -- simpl. apply select_length. exact E.
         -- right. simpl. apply select_length. rewrite map_length. apply cell_mask_length.
     + destruct ocm as [c|]; unfold copy_cmask.
       * destruct (Nat.eqb (length c) (length (cells o))) eqn:E; simpl; [|discriminate]. apply Nat.eqb_eq in E.
-        destruct (copy_kids _ _ None (Some c) (kids o)) as [ks|] eqn:C; [|discriminate].
+        destruct (copy_kids fl _ _ None (Some c) (kids o)) as [ks|] eqn:C; [|discriminate].
         intros H; injection H as <-. unfold selection. simpl.
         split; [apply repeat_length|]. split; [exact E|]. split; [apply closed_all_true; exact Wc|].
         split; [simpl; congruence|]. split; [rewrite select_repeat_true; reflexivity|]. split.
         -- rewrite rank_all_true_cells; [reflexivity|]. apply Forall_select. exact Wc.
-        -- apply (copy_kids_sel (length (verts o)) (length (cells o)) _ _ None (Some c)) in C; auto.
+        -- apply (copy_kids_sel fl (length (verts o)) (length (cells o)) _ _ None (Some c)) in C; auto.
            ++ simpl. rewrite count_repeat_true. reflexivity.
            ++ right. simpl. apply select_length. exact E.
-      * destruct (copy_kids _ _ None None (kids o)) as [ks|] eqn:C; [|discriminate].
+      * destruct (copy_kids fl _ _ None None (kids o)) as [ks|] eqn:C; [|discriminate].
         intros H; injection H as <-. unfold selection. simpl.
         rewrite cell_mask_all_true by exact Wc.
         split; [apply repeat_length|]. split; [apply repeat_length|]. split; [apply closed_all_true; exact Wc|].
         split; [simpl; congruence|]. split; [rewrite select_repeat_true; reflexivity|]. split.
         -- rewrite select_repeat_true by reflexivity. rewrite rank_all_true_cells; [reflexivity|exact Wc].
-        -- apply (copy_kids_sel (length (verts o)) (length (cells o)) _ _ None None) in C; auto.
+        -- apply (copy_kids_sel fl (length (verts o)) (length (cells o)) _ _ None None) in C; auto.
            ++ simpl. rewrite count_repeat_true. reflexivity.
            ++ right. simpl. rewrite count_repeat_true. reflexivity.
 Qed.
 
-Lemma masked_copy_failed o ovm ocm e o' : masked_copy o ovm ocm = Failed e o' -> o' = o.
+Lemma masked_copy_failed fl o ovm ocm e o' : masked_copy fl o ovm ocm = Failed e o' -> o' = o.
 Proof.
   unfold masked_copy.
   repeat match goal with
@@ -1164,8 +1218,8 @@ Qed.
 (* side conditions under which the pinned code behaves (always true for the repaired code) *)
 Definition op_safe (fl : flags) (o : obj) (p : op) : Prop :=
   match p with
-  | RemoveVertices ix => valueless_safe fl o /\ (f_guard_cells fl = true \/ ok o = OPoints \/ touches o ix)
-  | RemoveCells ix => f_skip_valueless fl = true \/ valued ACell (kids o)
+  | RemoveVertices ix => valueless_safe fl o /\ (f_guard_cells fl = true \/ ok o = OPoints \/ touches o ix) /\ text_safe_rv o ix
+  | RemoveCells ix => (f_skip_valueless fl = true \/ valued ACell (kids o)) /\ text_safe_rc o ix
   | MaskedCopy vm cm => (vm = None \/ cm = None) /\ (ok o = OPoints -> cm = None)
   | SetValues id v => set_fits o id v
   | AddData _ a k v => add_fits o a k v
@@ -1183,9 +1237,9 @@ Proof. unfold unchanged_or_stub. auto. Qed.
 Lemma step_failed fl o p e o' : wf o -> op_safe fl o p -> step fl o p = Some (Failed e o') -> unchanged_or_stub o o'.
 Proof.
   intros W HS. destruct p as [ix|ix|id v|id a k v|vm cm|order]; simpl in *.
-  - intros H; injection H as H. destruct HS as [H1 H2].
+  - intros H; injection H as H. destruct HS as (H1 & H2 & H3).
     apply remove_vertices_failed in H; auto. subst. apply unchanged_refl.
-  - intros H; injection H as H. destruct (ok o) eqn:Ek.
+  - intros H; injection H as H. destruct HS as [H1 H3]. destruct (ok o) eqn:Ek.
     + injection H as _ <-. apply unchanged_refl.
     + apply remove_cells_failed in H; auto; [subst; apply unchanged_refl|apply wf_kids_len_c; exact W].
     + apply remove_cells_failed in H; auto; [subst; apply unchanged_refl|apply wf_kids_len_c; exact W].
@@ -1255,11 +1309,11 @@ Proof.
   - eapply step_done_wf; eauto.
   - destruct p as [ix|ix|id v|id a k v|vm cm|order].
     + pose proof (step_failed fl o _ e o' W HS S) as U. eapply unchanged_wf; eauto.
-      intros g Hg. simpl in S. injection S as S. destruct HS as [H1 H2].
+      intros g Hg. simpl in S. injection S as S. destruct HS as (H1 & H2 & H3).
       apply remove_vertices_failed in S; auto. subst o'. exfalso.
       apply (f_equal (@length kid)) in Hg. rewrite app_length in Hg. simpl in Hg. lia.
     + pose proof (step_failed fl o _ e o' W HS S) as U. eapply unchanged_wf; eauto.
-      intros g Hg. exfalso. simpl in S. injection S as S. destruct (ok o) eqn:Ek.
+      intros g Hg. exfalso. simpl in S. injection S as S. destruct HS as [H1 H3]. destruct (ok o) eqn:Ek.
       * injection S as _ <-. apply (f_equal (@length kid)) in Hg. rewrite app_length in Hg. simpl in Hg. lia.
       * apply remove_cells_failed in S; auto; [|apply wf_kids_len_c; exact W]. subst o'.
         apply (f_equal (@length kid)) in Hg. rewrite app_length in Hg. simpl in Hg. lia.
@@ -1280,12 +1334,14 @@ Definition copy_args_ok (o : obj) (p : op) : Prop :=
   | MaskedCopy vm cm => (vm = None \/ cm = None) /\ (ok o = OPoints -> cm = None)
   | SetValues id v => set_fits o id v          (* text arrays are not padded: they must not be shorter than the count *)
   | AddData _ a k v => add_fits o a k v
-  | _ => True
+  | RemoveVertices ix => text_safe_rv o ix     (* a zero-length text array cannot be written *)
+  | RemoveCells ix => text_safe_rc o ix
+  | Reopen _ => True
   end.
 
 Lemma op_safe_repaired o p : copy_args_ok o p -> op_safe repaired o p.
 Proof.
-  destruct p; simpl; auto. intros _. split; [left; reflexivity|left; reflexivity].
+  destruct p; simpl; auto; intros H; repeat split; auto; left; reflexivity.
 Qed.
 
 Fixpoint run_ok (fl : flags) (o : obj) (ops : list op) : Prop :=
